@@ -57,9 +57,9 @@ REGISTRY = {
             "technique": "TLC-enumerated (route, method, Host class) table of WebUI.tla executed on the real handlers through net/http's DefaultServeMux with hostile strings in every remote-controlled source",
             "level": "WebUI.tla states which requests must be refused (foreign or missing Host) and which sources each page shows; TLC checks that a refused request is inert "
                      "in the model and enumerates 520 cases. Each case runs against the real mux with a live torrent whose name, path components, tracker URL, web-seed URL "
-                     "and a known peer's version carry marked hostile strings: refused requests must answer 4xx, carry no torrent data and leave the torrent set and "
+                     "a tracker's failure reason and a known peer's version carry marked hostile strings: refused requests must answer 4xx, carry no torrent data and leave the torrent set and "
                      "configuration unchanged; served HTML must not contain any marker unescaped; playlists must have exactly 1+2n lines.",
-            "note": "Trusted: TLC, net/http/httptest. Tracker error text is not driven (needs a live tracker failure); covered only through the same template path as the URL."},
+            "note": "Trusted: TLC, net/http/httptest. The tracker error text is produced by a real announce to a local tracker that fails with a hostile reason."},
     "C20": {"run": p_http.run_c20, "design": "DESIGN.md section 3 C20",
             "technique": "TLC-enumerated (layout, lookup path) table of Namespace.tla executed on the real HTTP file/directory/playlist handlers and on the FUSE nodes (fuse.VerifRoot)",
             "level": "Namespace.tla defines Resolve/IsDir/Entries/Listed declaratively over component sequences; TLC checks their mutual consistency and enumerates 1264 cases over "
